@@ -333,6 +333,13 @@ func runResync(dir string, k int, sp *ResyncSpec, stall time.Duration) (*ResyncO
 // the number of messages accepted and whether the state is delivered.  (The verdicts never
 // use it: the Coq model is evaluated on what was observed.)
 func simSync(wp, wc []int, hdr, moreCost, limit, min int) (accepted int, delivered bool) {
+	accepted, delivered, _ = simSyncR(wp, wc, hdr, moreCost, limit, min)
+	return
+}
+
+// simSyncR also reports the largest number of consecutive oversize rejections of one message.
+func simSyncR(wp, wc []int, hdr, moreCost, limit, min int) (accepted int, delivered bool, worst int) {
+	run := 0
 	pi, ci := 0, 0
 	pp, cp := len(wp), len(wc)
 	for iter := 0; iter < 4*(len(wp)+len(wc))+8; iter++ {
@@ -351,7 +358,10 @@ func simSync(wp, wc []int, hdr, moreCost, limit, min int) (accepted int, deliver
 		}
 		if m := msgLen(hdr, payload); m > limit {
 			if pp+cp <= min {
-				return accepted, false
+				return accepted, false, worst
+			}
+			if run++; run > worst {
+				worst = run
 			}
 			f := float64(limit) / float64(m)
 			if f > 0.9 {
@@ -372,13 +382,14 @@ func simSync(wp, wc []int, hdr, moreCost, limit, min int) (accepted int, deliver
 			continue
 		}
 		accepted++
+		run = 0
 		if !more {
-			return accepted, true
+			return accepted, true, worst
 		}
 		pi, ci = pi+pp, ci+cp
 		clamp()
 	}
-	return accepted, false
+	return accepted, false, worst
 }
 
 func attemptWeights(a *AttemptSpec) (wp, wc []int) {
